@@ -90,6 +90,11 @@ fn extract_bracket_expr(pattern: &str) -> Option<(String, &str)> {
                     terminator.push(']');
                     let end = rest.find(&terminator)? + 2;
                     expr.push_str(&rest[..end]);
+                    if delim == ':' && &rest[..end] == "punct:]" {
+                        // Oniguruma's [:punct:] is the Unicode category Punctuation, which
+                        // lacks the ASCII symbols that POSIX puts into the punct class.
+                        expr.push_str("$+<=>^`|~");
+                    }
                     chars = rest[end..].chars();
                 }
             }
